@@ -19,22 +19,22 @@ type ctxKey string
 
 // RunResult is everything recorded about one simulated run.
 type RunResult struct {
-	Sc        *Scenario
-	Log       *Log
-	Out       *simrt.Outcome
-	W         *World
-	Sim       *simrt.Sim
-	Survivors []*simrt.Task
-	Tasks     []*simrt.Task
-	Timers    []*simrt.TimerRec
-	PendingTimers []int // indexes of library timers still pending after the grace period
-	FreeBulkhead  map[int]int // end of run: TryAcquirePermit successes per bulkhead instance
+	Sc            *Scenario
+	Log           *Log
+	Out           *simrt.Outcome
+	W             *World
+	Sim           *simrt.Sim
+	Survivors     []*simrt.Task
+	Tasks         []*simrt.Task
+	Timers        []*simrt.TimerRec
+	PendingTimers []int          // indexes of library timers still pending after the grace period
+	FreeBulkhead  map[int]int    // end of run: TryAcquirePermit successes per bulkhead instance
 	BreakerEnd    map[int][2]int // end of run: breaker state and TryAcquirePermit successes while half-open
-	AW          *adapterWorld
-	BubblePanic string
-	Panics    []string
-	SimTime   time.Duration
-	Start     time.Time
+	AW            *adapterWorld
+	BubblePanic   string
+	Panics        []string
+	SimTime       time.Duration
+	Start         time.Time
 }
 
 var sawCancelErrs [256]error
